@@ -49,7 +49,8 @@ def _check_point(model, X, declared, label, where, v):
 
 
 def sparse_case(case):
-    name, gemini, alpha, Mc, groups, bs, dynamic, mode, seed = case
+    name, gemini, alpha, Mc, groups, bs, dynamic, mode, seed = case[:9]
+    route = case[9] if len(case) > 9 else "ctor"
     n = 8
     rs = np.random.RandomState(80_000 + seed)
     X = np.concatenate([rs.normal(size=(n, 2)) + np.array([[3, 0]]) * (np.arange(n)[:, None] % 2), rs.normal(size=(n, 2))], axis=1)
@@ -63,8 +64,8 @@ def sparse_case(case):
     if name in M.HAS_HIDDEN:
         kw["M"] = Mc
         kw["n_hidden_dim"] = 3
-    model = M.make(name, **kw)
-    where = dict(model=name, gemini=gemini, alpha=alpha, M=Mc, groups=str(groups), batch_size=bs, dynamic=dynamic, mode=mode)
+    model = M.make(name, _route=route, **kw)
+    where = dict(model=name, gemini=gemini, alpha=alpha, M=Mc, groups=str(groups), batch_size=bs, dynamic=dynamic, mode=mode, route=route)
     v = []
     state = {"snap": None, "steps": 0, "shrunk": 0}
 
@@ -184,6 +185,15 @@ def explorers(tier, seed):
                                         if mode == "path" and alpha in (0.0, 5.0) and gi % 3 != 0:
                                             continue
                                     cases.append((name, gemini, alpha, Mc, groups, bs, dynamic, mode, seed))
+    # scikit-learn protocol route: alpha, M, groups, ... arrive through set_params on a default-constructed estimator that was used once
+    for name in M.SPARSE:
+        gemini = {"SparseLinearMI": "mi", "SparseLinearMMD": "mmd_ova", "SparseMLPMMD": "mmd_ovo"}.get(name, "mi")
+        for alpha in (0.05, 0.5):
+            for gi, groups in enumerate(group_menu):
+                if gi % 3 == 0:
+                    for mode in ("fit", "path"):
+                        for route in ("set_params", "used_set_params"):
+                            cases.append((name, gemini, alpha, 0.5 if name in M.HAS_HIDDEN else None, groups, None, False, mode, seed, route))
     return [Explorer("sparse_monitor", "props.c06", "sparse_case", cases, chunk=4, floor=50, case_timeout=600,
                      require={"rows_shrunk_not_killed": 500, "ends_with_some_features_dead": 50},
                      rule="5 sparse estimators x GEMINIs x alpha {0,0.05,0.5,5} x M {0.5,10} x {None, ALL 15 set partitions of 4 features, 4 partial "
